@@ -219,6 +219,10 @@ package dnssec
 //@   assert at append#2: lastret("middleware/resolver/dnssec.nsec3Safe")
 //@   assert at append#2: lastret("(middleware/resolver/dnssec.aggressiveCanonicalName).isSubdomainOf") && len(owner.labels) == len(result.zone.labels) + 1
 //@   assert at append#2: current.hash == parameters.hash && current.iterations == parameters.iterations
+//@   # the salt is part of the parameter tuple: each record's salt is decoded into ITS OWN buffer (so the remembered
+//@   # first-record salt is never overwritten by a later record's) and compared byte-wise with the ring's salt
+//@   assert at append#2: sameslice(current.salt, lastret("encoding/hex.DecodeString")) && lastret("encoding/hex.DecodeString", 1) == nil && len(current.salt) == int(nsec3.SaltLength)
+//@   assert at call bytes.Equal#1: sameslice(arg0, current.salt) && sameslice(arg1, parameters.salt) && sameslice(arg0, lastret("encoding/hex.DecodeString"))
 //@
 //@ # ring lookup: a name never has both a matching and a covering record, and never two covering records (error instead)
 //@ func (*nsec3RingEvaluator).lookup
